@@ -52,6 +52,12 @@ type evCase struct {
 	ts       time.Time
 	ver      gmsl.RoomVersion
 	desc     string
+	// dupMember: the content repeats the member name "membership" with two
+	// values. The library reads a repeated name as its last occurrence
+	// everywhere (auth rules, redaction), and so does the oracle - for
+	// soundness only: whether such an event has to be accepted at all is not
+	// judged (refusing repeated names outright would be as good).
+	dupMember bool
 }
 
 func bodyC06(r *sim.Run) {
@@ -211,7 +217,7 @@ func bodyC06(r *sim.Run) {
 				if got && !canAccept[i] {
 					r.Violate("C06", "soundness", whyTag(whyNot[i]), "event %s verified although %s", c.desc, whyNot[i])
 				}
-				if !got && mustAccept[i] {
+				if !got && mustAccept[i] && !c.dupMember {
 					r.Violate("C06", "completeness", "all_required_valid", "event %s refused (%v) although every required server validly signed it and the ring obtained the keys that show it", c.desc, errs[i])
 				}
 				continue
@@ -221,7 +227,7 @@ func bodyC06(r *sim.Run) {
 			if got && !want {
 				r.Violate("C06", "soundness", whyTag(why), "event %s verified although %s", c.desc, why)
 			}
-			if !got && want {
+			if !got && want && !c.dupMember {
 				r.Violate("C06", "completeness", "all_required_valid", "event %s refused (%v) although every required server validly signed it", c.desc, errs[i])
 			}
 		}
@@ -334,6 +340,30 @@ func (w *kworld) buildCase(impl gmsl.IRoomVersion, A, B, C, D, E *world.Server) 
 		}
 		c.desc += " +incidental content"
 	}
+	if cm, ok := p.Content.(map[string]any); ok && p.Type == spec.MRoomMember && t.Chance(70) {
+		eff, _ := cm["membership"].(string)
+		var others []string
+		for _, m := range []string{"invite", "join", "leave", "ban", "knock"} {
+			if m != eff {
+				others = append(others, m)
+			}
+		}
+		rest := map[string]any{}
+		for k, v := range cm {
+			if k != "membership" {
+				rest[k] = v
+			}
+		}
+		rb, _ := json.Marshal(rest)
+		mid := ""
+		if len(rb) > 2 {
+			mid = string(rb[1:len(rb)-1]) + ","
+		}
+		p.Content = json.RawMessage(fmt.Sprintf(`{"membership":%q,%s"membership":%q}`, sim.Pick(t, others), mid, eff))
+		c.dupMember = true
+		c.desc += " +membership given twice (last: " + eff + ")"
+		r.Probe("member_content_repeats_membership")
+	}
 	c.desc = fmt.Sprintf("%s (v%s)", c.desc, ver)
 	// timestamp: around a boundary of one of the required servers' keys
 	names := make([]string, 0, len(req))
@@ -404,7 +434,7 @@ func (w *kworld) buildCase(impl gmsl.IRoomVersion, A, B, C, D, E *world.Server) 
 // on its own signatures.
 func (w *kworld) cloneCase(impl gmsl.IRoomVersion, c0 *evCase) *evCase {
 	c := &evCase{ver: c0.ver, plans: map[spec.ServerName][]sigPlan{}, base: c0.base, unrel: c0.unrel, baseDesc: c0.baseDesc + " [same event, other signatures]",
-		required: c0.required, reqOther: c0.reqOther, ts: c0.ts}
+		required: c0.required, reqOther: c0.reqOther, ts: c0.ts, dupMember: c0.dupMember}
 	w.r.Probe("batch_with_two_pdus_sharing_an_event_id")
 	w.signCase(impl, c)
 	return c
@@ -454,7 +484,7 @@ func (w *kworld) signCase(impl gmsl.IRoomVersion, c *evCase) {
 	foreign := known && stable[c.ver] && t.Chance(400)
 	var cm map[string]json.RawMessage
 	if json.Unmarshal(ev.Content(), &cm) == nil {
-		if _, tpi := cm["third_party_invite"]; tpi {
+		if _, tpi := cm["third_party_invite"]; tpi || c.dupMember {
 			// what survives of a third_party_invite member (`signed` only, from
 			// version 11; and what if there is no `signed`?) is where
 			// implementations may differ: the library signs these itself
